@@ -11,6 +11,8 @@ Lists are comma separated without blanks, `-` is the empty list (rank 0).
 * `write <ty> <dims> <data>`          — `ty` ∈ i64 | str; the bytes of `Writable` (blank → `_`, newline → `/`)
 * `debug <dims> <data>`               — `{:?}` of an `i64` tensor
 * `rt   <ty> <chunk> <dims> <data>`   — write, read back through a `Reader` fed `chunk` bytes at a time
+* `rs   <ty> <chunk> <lead> ; t <dims> <data> <seps> ; k <tok> <sep> ; …` — several values (tensors of any rank 0..4, plain tokens)
+                                        read from ONE reader over one input, every element followed by its own whitespace
 * `h <D> ; op ; op ; …`               — a history over tensor variables 0..3 of rank `D` (`Tensor<i64, D>`), ops:
     `mk s <dims> <start>` (`from_vec(dims, start..)`), `cl s r` (`s = r.clone()`), `cf s r` (`s.clone_from(&r)`),
     `eq s r`, `dims s`, `dim s i`, `get s <idx>` (`get_index`), `rd s <idx>` (`t[idx]`), `wr s <idx> v` (`t[idx] = v`, then
@@ -203,6 +205,80 @@ def handleRt (ty : String) (dims : List Nat) (data : List String) : String :=
         | .error e => showP e
         | .ok (u, rest) => s!"eq={showBool (eq u t)} data={showList u.data} eof={showBool rest.isEmpty}"
     answer m s!"eq=true data={showList canon} eof=true"
+
+/-! ### several values read from ONE reader (`rs`)
+
+`rs <ty> <chunk> <lead> ; t <dims> <data> <seps> ; k <tok> <sep> ; …`: the input text is `lead` followed by every
+element / token followed by its own separator (codes over s = blank, n = newline, t = tab, r = CR; `-` = nothing,
+allowed only after the very last token).  The model side tokenises the text (`splitWs`) and runs `read` / `tokRd`
+item by item over the ONE token list; the spec side is the plan itself (what was written) and `eof=true`. -/
+
+def sepChars? (code : String) : Option (List Char) :=
+  if code = "-" then some [] else
+  code.toList.mapM (fun c =>
+    if c = 's' then some ' ' else if c = 'n' then some '\n' else if c = 't' then some '\t' else if c = 'r' then some '\r' else none)
+
+structure RsItem where
+  dims : Option (List Nat)   -- none: a plain token read with `reader.read::<T>()`
+  data : List String
+  seps : List (List Char)
+
+def parseRsItem (ty : String) (part : String) : Option RsItem :=
+  match tokens part with
+  | ["t", d, x, sp] =>
+    match parseNatsComma? d, (sp.splitOn ",").mapM sepChars? with
+    | some dims, some seps =>
+      let data := x.splitOn ","
+      if allPos dims ∧ dims.length ≤ 4 ∧ prod dims = data.length ∧ seps.length = data.length ∧ data.length ≤ 256
+          ∧ data.all (validTok ty) then some ⟨some dims, data, seps⟩ else none
+    | _, _ => none
+  | ["k", x, sp] =>
+    match sepChars? sp with
+    | some s => if validTok ty x then some ⟨none, [x], [s]⟩ else none
+    | none => none
+  | _ => none
+
+def rsShow (dims : Option (List Nat)) (data : List String) : String :=
+  match dims with
+  | some d => s!"t{showNats d}{showList data}"
+  | none => s!"k={data.headD ""}"
+
+def rsRun : List RsItem → List (List Char) → List String × Option (List (List Char))
+  | [], toks => ([], some toks)
+  | it :: rest, toks =>
+    match it.dims with
+    | some dims =>
+      match read dims (tokRd (fun cs => String.ofList cs) "") toks with
+      | .error e => ([showP e], none)
+      | .ok (u, toks') =>
+        let (os, r) := rsRun rest toks'
+        (rsShow (some u.dims) u.data :: os, r)
+    | none =>
+      let (a, toks') := tokRd (fun cs => String.ofList cs) "" toks
+      let (os, r) := rsRun rest toks'
+      (rsShow none [a] :: os, r)
+
+def handleRs (hdr : String) (parts : List String) : String :=
+  let inv := "M INVALID | V INVALID | S any"
+  match tokens hdr with
+  | ["rs", ty, chunk, lead] =>
+    match parseNat? chunk, sepChars? lead, parts.mapM (parseRsItem ty) with
+    | some _, some leadCs, some items =>
+      if ty ≠ "i64" ∧ ty ≠ "str" then inv else
+      if items.isEmpty ∨ items.length > 16 then inv else
+      let canon (it : RsItem) : List String := it.data.map (fun d => String.ofList (renderTok ty d))
+      let pieces : List (List Char × List Char) := items.flatMap (fun it => ((canon it).map String.toList).zip it.seps)
+      -- only the very last separator may be empty
+      if (pieces.dropLast.any (fun p => p.2.isEmpty)) then inv else
+      let text : List Char := leadCs ++ (pieces.map (fun p => p.1 ++ p.2)).flatten
+      let (os, r) := rsRun items (splitWs text)
+      let m := match r with
+        | some rest => " ; ".intercalate os ++ s!" ; eof={showBool rest.isEmpty}"
+        | none => " ; ".intercalate os
+      let s := " ; ".intercalate (items.map (fun it => rsShow it.dims (canon it))) ++ " ; eof=true"
+      answer m s
+    | _, _, _ => inv
+  | _ => inv
 
 /-! ### histories -/
 
@@ -486,6 +562,11 @@ def handle (line : String) : String :=
   if (tokens line).head? = some "h" then
     match splitOps line with
     | hdr :: ops => handleHist hdr ops
+    | [] => badLine line
+  else
+  if (tokens line).head? = some "rs" then
+    match splitOps line with
+    | hdr :: ops => handleRs hdr ops
     | [] => badLine line
   else
   match tokens line with
